@@ -89,6 +89,18 @@ V('h-silent-log-threshold', H,
   'float threshold = config->use_beta ? std::exp(scored_cats[token_id].top().first) * config->beta : std::numeric_limits<float>::lowest();',
   'float threshold = config->use_beta ? scored_cats[token_id].top().first + std::log(config->beta) : std::numeric_limits<float>::lowest();\n#define VERIF_LOGFORM 1',
   ['C01'], expect='silent')
+V('h-silent-log-threshold-c16', H,
+  'float threshold = config->use_beta ? std::exp(scored_cats[token_id].top().first) * config->beta : std::numeric_limits<float>::lowest();\n        float out_score = tag_out_scores(token_id, token_id + 1) + dep_leaf_out_score;',
+  'float threshold = config->use_beta ? scored_cats[token_id].top().first + std::log(config->beta) : std::numeric_limits<float>::lowest();\n        float out_score = tag_out_scores(token_id, token_id + 1) + dep_leaf_out_score;',
+  ['C01'], expect='silent')
+V2('h-silent-log-form-both', [
+   (H, 'float threshold = config->use_beta ? std::exp(scored_cats[token_id].top().first) * config->beta : std::numeric_limits<float>::lowest();',
+       'float threshold = config->use_beta ? scored_cats[token_id].top().first + std::log(config->beta) : std::numeric_limits<float>::lowest();', 1),
+   (H, 'if (std::exp(score_and_cat.first) > threshold)', 'if (score_and_cat.first > threshold)', 1)], ['C16', 'C01', 'C02'], expect='silent')
+V('p-beta-from-penalty', 'depccg/parsing.py', "'beta': beta,", "'beta': unary_penalty,", ['C16'])
+V('m-use-beta-inverted', 'depccg/__main__.py', 'use_beta=not args.disable_beta,', 'use_beta=args.disable_beta,', ['C16'])
+V('x-pruning-from-nbest', PYX, "c_config.pruning_size = kwargs.pop('pruning_size', 50)", "c_config.pruning_size = kwargs.pop('nbest', 50)", ['C16'])
+V('a-disable-beta-store-false', 'depccg/argparse.py', "        '--disable-beta',\n        action='store_true',", "        '--disable-beta',\n        action='store_false',", ['C16'])
 
 # ---------------------------------------------------------------- parsing.pyx
 V('x-token-not-advanced', PYX, '        token_id[0] += 1\n', '', ['C02'])
@@ -115,3 +127,21 @@ V('x-too-long-no-continue', PYX, "            all_results.append(failed())\n    
 V('x-silent-score-inscore', PYX, "kwargs['scores'].append(item.score())", "kwargs['scores'].append(item.in_score)", ['C09', 'C10'], expect='silent')
 V('x-silent-list-copy', PYX, 'categories_ = copy.copy(categories)', 'categories_ = list(categories)', ['C02', 'C11'], expect='silent')
 V('x-silent-rename-stack', PYX, "    stack = kwargs['stack']", "    stack = kwargs['stack']\n    out_stack = stack", ['C02', 'C12'], expect='silent')
+
+# ---------------------------------------------------------------- label recovery (C12)
+G = 'depccg/grammar/__init__.py'
+RD = 'depccg/tools/reader.py'
+TR = 'depccg/tree.py'
+V('g-guess-no-return', G, '            return rule\n', '            rule\n', ['C12'])
+V('g-guess-inverted', G, 'if rule.cat == target:', 'if rule.cat != target:', ['C12'])
+V('g-guess-args-swapped', G, 'for rule in binary_rules(x, y):', 'for rule in binary_rules(y, x):', ['C12'])
+V('g-guess-first-result', G, '        if rule.cat == target:\n            return rule\n', '        return rule\n', ['C12'])
+V('rd-xml-head-default', RD, "                        cat, left, right, rule.op_string, rule.op_symbol, rule.head_is_left\n                    )\n            else:\n                assert node.tag == 'lf'",
+  "                        cat, left, right, rule.op_string, rule.op_symbol\n                    )\n            else:\n                assert node.tag == 'lf'", ['C12'])
+V('rd-xml-triplet-swapped', RD, "                        binary_rules, cat, left.cat, right.cat\n                    )\n                    return Tree.make_binary(\n                        cat, left, right, rule.op_string, rule.op_symbol, rule.head_is_left\n                    )\n            else:\n                assert node.tag == 'lf'",
+  "                        binary_rules, cat, right.cat, left.cat\n                    )\n                    return Tree.make_binary(\n                        cat, left, right, rule.op_string, rule.op_symbol, rule.head_is_left\n                    )\n            else:\n                assert node.tag == 'lf'", ['C12'])
+V('tr-nltk-symbol-from-string', TR, 'cat, left, right, rule.op_string, rule.op_symbol, rule.head_is_left', 'cat, left, right, rule.op_string, rule.op_string, rule.head_is_left', ['C12'])
+V('rd-ptb-short-call', RD, "                    combinator.op_string,\n                    combinator.op_symbol,\n                    combinator.head_is_left,\n", "                    combinator\n", ['C12', 'C20'])
+V('rd-auto-unk-label', RD, "                cat, left, right, rule.op_string, rule.op_symbol, head_is_left\n", "                cat, left, right, 'unk', '<unk>', head_is_left\n", ['C12'])
+V('rd-silent-rename-rule', RD, "            rule = guess_combinator_by_triplet(\n                self.binary_rules, cat, left.cat, right.cat\n            )\n            return Tree.make_binary(\n                cat, left, right, rule.op_string, rule.op_symbol, head_is_left\n",
+  "            found = guess_combinator_by_triplet(\n                self.binary_rules, cat, left.cat, right.cat\n            )\n            return Tree.make_binary(\n                cat, left, right, op_string=found.op_string, op_symbol=found.op_symbol, head_is_left=head_is_left\n", ['C12'], expect='silent')
